@@ -13,9 +13,10 @@
 
    Strings are lists of bytes (N): ASCII for everything the parser inspects;
    bytes >= 128 (UTF-8 of non-ASCII text) are passed through opaquely. *)
-From Coq Require Import String Ascii.
+From Coq Require Import String.
+From Coq Require Import Ascii.
 From TT Require Import Lib.Base Lib.Sort.
-Open Scope N_scope.
+Local Open Scope N_scope.
 
 Definition str := list N.
 Definition sb (s : string) : str := map N_of_ascii (list_ascii_of_string s).
@@ -94,7 +95,7 @@ Definition lower1 (c : N) : N := if (65 <=? c) && (c <=? 90) then c + 32 else c.
 Definition lower (s : str) : str := map lower1 s.
 
 Fixpoint count_char (c : N) (s : str) : nat :=
-  match s with [] => 0%nat | x :: r => ((if x =? c then 1 else 0) + count_char c r)%nat end.
+  match s with [] => O | x :: r => Nat.add (if x =? c then 1%nat else O) (count_char c r) end.
 
 (* s.split(c) *)
 Fixpoint split_on (c : N) (s : str) : list str :=
@@ -234,9 +235,9 @@ Definition value_ok (v : str) : bool :=
   forallb value_char v
   && negb (has_infix (sb "=?") v)                       (* RFC 2047 look-alikes: not modelled *)
   && negb (odd_bs_end false v)                          (* escaped closing quote: not modelled *)
-  && negb (has_infix (nb [194; 133]) v)                 (* U+0085, U+2028, U+2029: the email package *)
-  && negb (has_infix (nb [226; 128; 168]) v)            (*   refuses them as line separators         *)
-  && negb (has_infix (nb [226; 128; 169]) v).
+  && negb (has_infix [194; 133] v)                 (* U+0085, U+2028, U+2029: the email package *)
+  && negb (has_infix [226; 128; 168] v)            (*   refuses them as line separators         *)
+  && negb (has_infix [226; 128; 169] v).
 
 (* the content types the model speaks about *)
 Definition mime_dom (ct : ctype) : bool :=
